@@ -52,6 +52,21 @@ impl World {
             }};
         }
         match sink {
+            // a C-style callback: explicit context + extern "C" function (Callback::new, From<Callback> for OpaqueCallback)
+            Sink::Closure { stop, calls, got } if (*stop + payload::next_id()) % 2 == 1 => {
+                struct Ctx<'a> {
+                    stop: usize,
+                    calls: &'a mut usize,
+                    got: &'a mut Vec<Heavy>,
+                }
+                extern "C" fn cfn(c: &mut Ctx, x: Heavy) -> bool {
+                    *c.calls += 1;
+                    c.got.push(x);
+                    !(c.stop > 0 && *c.calls >= c.stop)
+                }
+                let mut ctx = Ctx { stop: *stop, calls, got };
+                run!(cglue::callback::Callback::new(&mut ctx, cfn).into())
+            }
             Sink::Closure { stop, calls, got } => {
                 let mut f = |x: Heavy| {
                     *calls += 1;
@@ -107,7 +122,11 @@ impl World {
                 let p: *mut std::vec::IntoIter<Heavy> = &mut **self.src.as_mut().unwrap();
                 // the borrow is kept alive by discipline: the source is not touched while wrapped
                 let it: &'static mut std::vec::IntoIter<Heavy> = unsafe { &mut *p };
-                self.wrapper = Some(if payload::next_id() % 2 == 0 { CIterator::new(it) } else { it.into() });
+                self.wrapper = Some(match payload::next_id() % 3 {
+                    0 => CIterator::new(it),
+                    1 => it.into(),
+                    _ => cglue::iter::AsCIterator::as_citer(it),
+                });
                 self.last = ok;
             }
             "DropWrap" => {
